@@ -10,7 +10,9 @@ package main
 //                idiom); everything else is  PVar "<source text>"
 //   pc_deferred  the call is the operand of a defer statement (it runs when the function returns)
 //   pc_guard     the condition of the innermost if statement whose BODY contains the call ("" when there is none;
-//                "<loop>" inside a for/range body, "<else>" inside an else branch: the derivation refuses those)
+//                "<loop>" inside a for/range body, "<else>" inside an else branch, "<closure>" inside a function
+//                literal - these marks stay in front of the condition of an if nested inside; the derivation
+//                refuses them)
 // FS/PersistSpec.v turns these into system-call scripts and Props/C20.v proves them equal to the scripts the crash
 // theorems are about, for every assignment of values to the source expressions.
 
@@ -46,6 +48,24 @@ func mutatingCallee(call *ast.CallExpr) string {
 		}
 	}
 	return ""
+}
+
+// leadingMarks returns the "<loop> ", "<else> ", "<closure> " marks a guard starts with (each followed by a space).
+func leadingMarks(guard string) string {
+	out := ""
+	for {
+		found := false
+		for _, m := range []string{"<loop>", "<else>", "<closure>"} {
+			if strings.HasPrefix(guard, m) {
+				out += m + " "
+				guard = strings.TrimPrefix(strings.TrimPrefix(guard, m), " ")
+				found = true
+			}
+		}
+		if !found {
+			return out
+		}
+	}
 }
 
 func genPersist(repo, out string) {
@@ -139,17 +159,19 @@ func genPersist(repo, out string) {
 				case *ast.IfStmt:
 					walk(v.Init, guard, false)
 					walk(v.Cond, guard, false)
-					walkList(v.Body.List, exprString(v.Cond))
+					// once inside a loop, an else branch or a closure the marks stay in front of the condition
+					mark := leadingMarks(guard)
+					walkList(v.Body.List, mark+exprString(v.Cond))
 					if v.Else != nil {
-						walk(v.Else, "<else>", false)
+						walk(v.Else, mark+"<else>", false)
 					}
 					return
 				case *ast.ForStmt:
 					walk(v.Init, guard, false)
-					walkList(v.Body.List, "<loop>")
+					walkList(v.Body.List, leadingMarks(guard)+"<loop>")
 					return
 				case *ast.RangeStmt:
-					walkList(v.Body.List, "<loop>")
+					walkList(v.Body.List, leadingMarks(guard)+"<loop>")
 					return
 				case *ast.BlockStmt:
 					walkList(v.List, guard)
@@ -158,7 +180,7 @@ func genPersist(repo, out string) {
 					walk(v.Call, guard, true)
 					return
 				case *ast.FuncLit:
-					walkList(v.Body.List, "<closure>")
+					walkList(v.Body.List, leadingMarks(guard)+"<closure>")
 					return
 				case *ast.CallExpr:
 					if c := mutatingCallee(v); c != "" {
